@@ -35,6 +35,9 @@ fam({'C14': ('main', 'all')},
 fam({'C17': ('main', 'all')},
     driver='worker', tv='WorkerTV', mc_quick=[('WorkerL2', 'WorkerL2')], mc_thorough=[('WorkerL2', 'WorkerL2_big')],
     n=(80, 300, 2000, 6000))
+fam({'C09': ('keys', 'all'), 'C10': ('main', 'all')},
+    driver='exclusive', tv='ExclusiveTV', mc_quick=[], mc_thorough=[],
+    n=(80, 300, 2000, 6000))
 
 
 def sig_of(rej):
